@@ -225,3 +225,23 @@ Theorem C03_supports_minting_is_source : forall t c clock,
   Src_token.SessionToken_supports_minting_src (Src_refine.inject_tok t) (VStr (Src_refine.cls_name c)) clock = Ok (VBool (supports_minting t c)).
 Proof. exact Src_refine.supports_minting_refines. Qed.
 Print Assumptions C03_supports_minting_is_source.
+
+(* --- round 12: which ID Token the logout code takes the session id from is the source's last_issued_token_of_type --- *)
+From Verif Require Lib.PyOps Gen.Src_grant_last Proofs.Src_refine_grant Proofs.Src_refine_grant_last.
+Theorem C03_last_issued_token_of_type_is_source : forall toks rest cls clock,
+  Src_grant_last.Grant_last_issued_token_of_type_src (Src_refine_grant.inject_grant toks rest) (VStr cls) clock
+  = Ok (Src_refine_grant.opt_tok (Src_refine_grant_last.last_of cls toks)).
+Proof. exact Src_refine_grant_last.last_issued_token_of_type_refines. Qed.
+Print Assumptions C03_last_issued_token_of_type_is_source.
+(* the token picked is of the class asked for, was issued by THIS grant, and no token of the class is younger *)
+Theorem C03_last_issued_sound : forall cls toks r,
+  Src_refine_grant_last.last_of cls toks = Some r ->
+  Src_refine_grant.k_cls r = cls /\ In r toks
+  /\ (forall t, In t toks -> Src_refine_grant.k_cls t = cls -> (Src_refine_grant.k_iat t <= Src_refine_grant.k_iat r)%Z).
+Proof. exact Src_refine_grant_last.last_of_sound. Qed.
+Print Assumptions C03_last_issued_sound.
+Theorem C03_last_issued_none : forall cls toks,
+  Src_refine_grant_last.last_of cls toks = None <-> (forall t, In t toks -> Src_refine_grant.k_cls t <> cls).
+Proof. exact Src_refine_grant_last.last_of_none. Qed.
+Print Assumptions C03_last_issued_none.
+(* --- end round 12 --- *)
